@@ -484,6 +484,66 @@ impl Srv {
                     }
                 }
             }
+            "raw_cmd" => {
+                // a request encoded by the SDK, sent over a raw socket after a login: the server's raw response bytes
+                use iggy::bytes_serializable::BytesSerializable;
+                use iggy::command::Command;
+                use tokio::io::{AsyncReadExt, AsyncWriteExt};
+                let stream = ident(&op["stream"]);
+                let topic = ident(&op["topic"]);
+                let (code, payload) = match s(op, "kind_of") {
+                    "poll" => {
+                        let cmd = iggy::messages::poll_messages::PollMessages {
+                            consumer: Self::consumer_of(op),
+                            stream_id: stream,
+                            topic_id: topic,
+                            partition_id: op.get("partition").and_then(|v| v.as_u64()).map(|v| v as u32),
+                            strategy: Self::strategy_of(op),
+                            count: u(op, "count") as u32,
+                            auto_commit: false,
+                        };
+                        (cmd.code(), cmd.to_bytes())
+                    }
+                    _ => {
+                        let cmd = iggy::consumer_groups::get_consumer_group::GetConsumerGroup { stream_id: stream, topic_id: topic, group_id: ident(&op["group"]) };
+                        (cmd.code(), cmd.to_bytes())
+                    }
+                };
+                let login = iggy::users::login_user::LoginUser { username: "iggy".into(), password: "iggy".into(), version: None, context: None };
+                let mut frames: Vec<Vec<u8>> = vec![];
+                for (c, p) in [(login.code(), login.to_bytes()), (code, payload)] {
+                    let mut f = vec![];
+                    f.extend_from_slice(&((p.len() + 4) as u32).to_le_bytes());
+                    f.extend_from_slice(&c.to_le_bytes());
+                    f.extend_from_slice(&p);
+                    frames.push(f);
+                }
+                match tokio::net::TcpStream::connect(self.addr).await {
+                    Err(e) => json!({"r": "err", "name": format!("connect: {e}")}),
+                    Ok(mut sock) => {
+                        let mut last = json!({"r": "err", "name": "no_reply"});
+                        for f in frames {
+                            if sock.write_all(&f).await.is_err() {
+                                return json!({"r": "err", "name": "write_failed"});
+                            }
+                            let mut head = [0u8; 8];
+                            match tokio::time::timeout(std::time::Duration::from_millis(3000), sock.read_exact(&mut head)).await {
+                                Ok(Ok(_)) => {
+                                    let status = u32::from_le_bytes(head[0..4].try_into().unwrap());
+                                    let len = u32::from_le_bytes(head[4..8].try_into().unwrap()) as usize;
+                                    let mut body = vec![0u8; len.min(1 << 24)];
+                                    if tokio::time::timeout(std::time::Duration::from_millis(3000), sock.read_exact(&mut body)).await.is_err() {
+                                        return json!({"r": "err", "name": "short_body"});
+                                    }
+                                    last = json!({"r": "ok", "status": status, "body": hexs(&body)});
+                                }
+                                _ => return json!({"r": "err", "name": "no_reply"}),
+                            }
+                        }
+                        last
+                    }
+                }
+            }
             "grep" => {
                 // byte search of every file under the data directory for clear-text secrets
                 let mut needles: Vec<String> = op.get("needles").and_then(|v| v.as_array()).map(|a| a.iter().map(|x| x.as_str().unwrap().to_string()).collect()).unwrap_or_default();
